@@ -699,7 +699,8 @@ class Node:
                 # lists are built again on the next turn
                 self.connection_logger.debug(
                     f"socket set changed while waiting for events: {e}")
-                continue
+                # timers and reconnects are still due in this round
+                ready_r, ready_w = [], []
 
             for rsock in ready_r:
                 if rsock == self.interrupt_read:
